@@ -311,4 +311,9 @@ structure MapEntry where
   path : List Char
 deriving DecidableEq, Repr
 
+/-- `hatypes.HostsMaps` as `CreateMaps` builds it -/
+structure HostsMapsView where
+  matchOrder : List MatchType
+deriving DecidableEq, Repr
+
 end HapVerif.GoLib
